@@ -274,7 +274,8 @@ func chaosPass(c *choice.Src, o engine.Opt, out *engine.Out, skip bool) *chaosWo
 	if o.Property == "C09" {
 		wShortSeed = c.Choose(2, "w.shortseed")
 	}
-	badIdx := []int{-1, w.n, 255, 256, 1<<31 - 1, -1 << 31}
+	// out-of-range indices, incl. values that wrap to a valid participant when converted to a byte
+	badIdx := []int{-1, w.n, 255, 256, 1<<31 - 1, -1 << 31, 256 + w.dealer, 256 + c.Choose(w.n, "badidx.wrap"), 512 + w.dealer, 1 << 16, -256 + w.dealer, w.n + 1}
 	for s := 0; s < steps; s++ {
 		for _, n := range w.nodes {
 			if n.crashed {
